@@ -21,6 +21,7 @@ type qeInput struct {
 type qeProfile struct {
 	name                                                       string
 	pFilter, pStats, pSort, pLimit, pAuth, pBackends, pWrapped int
+	pGrouped                                                   int
 	maxDepth, maxBackends, maxHosts, perDataset                int
 	tables                                                     []string
 	bothModes                                                  bool // run every text in both parse modes (C07)
@@ -34,11 +35,11 @@ var qeAllTables = []string{"hosts", "hosts", "hosts", "services", "services", "s
 var qeProfiles = map[string]*qeProfile{
 	"c01": {name: "c01", pFilter: 100, pStats: 0, pSort: 0, pLimit: 0, pAuth: 0, pBackends: 10, pWrapped: 30, maxDepth: 4, maxBackends: 3, maxHosts: 8, perDataset: 12, tables: qeAllTables,
 		rule: "generated datasets (1-3 backends, overlapping mixed-case/dotted/non-ASCII names, lists, ids beyond 8 bit, optional columns per flavour) x generated GET requests with filter trees (every operator x column type, And/Or/Negate nesting up to depth 4). non-trivial: the filter selects a proper, non-empty subset of the rows or uses a group/negation; distinct by request text+dataset"},
-	"c05": {name: "c05", pFilter: 50, pStats: 100, pSort: 0, pLimit: 0, pAuth: 10, pBackends: 10, pWrapped: 10, maxDepth: 2, maxBackends: 4, maxHosts: 8, perDataset: 12, tables: []string{"hosts", "services", "services", "comments", "hostgroups"},
+	"c05": {name: "c05", pGrouped: 45, pFilter: 50, pStats: 100, pSort: 0, pLimit: 0, pAuth: 10, pBackends: 10, pWrapped: 10, maxDepth: 2, maxBackends: 4, maxHosts: 8, perDataset: 12, tables: []string{"hosts", "services", "services", "comments", "hostgroups"},
 		rule: "generated Stats programs (1-4 counters/aggregates, nested StatsAnd/StatsOr/StatsNegate, optional group-by Columns) over 1-4 backends"},
 	"c06": {name: "c06", pFilter: 40, pStats: 0, pSort: 80, pLimit: 90, pAuth: 0, pBackends: 10, pWrapped: 50, maxDepth: 1, maxBackends: 4, maxHosts: 8, perDataset: 12, tables: []string{"hosts", "hosts", "services", "services", "comments", "hostgroups", "contacts"},
 		rule: "generated Sort (0-3 keys asc/desc incl. custom variables and keys outside Columns, default order), Limit, Offset combinations over 1-4 backends with interleaving names, json and wrapped_json"},
-	"c07": {name: "c07", pFilter: 100, pStats: 30, pSort: 10, pLimit: 10, pAuth: 0, pBackends: 0, pWrapped: 20, maxDepth: 3, maxBackends: 2, maxHosts: 8, perDataset: 10, tables: []string{"hosts", "hosts", "services", "services", "services", "comments", "hostgroups", "contacts"}, bothModes: true,
+	"c07": {name: "c07", pGrouped: 50, pFilter: 100, pStats: 30, pSort: 10, pLimit: 10, pAuth: 0, pBackends: 0, pWrapped: 20, maxDepth: 3, maxBackends: 2, maxHosts: 8, perDataset: 10, tables: []string{"hosts", "hosts", "services", "services", "services", "comments", "hostgroups", "contacts"}, bothModes: true,
 		rule: "every generated request text is parsed in both modes (ParseDefault, ParseOptimize) and evaluated on the same store; indexable shapes (name/host_name/groups/host_groups/primary key with = =~ ~ ~~) mixed with other terms, regexes with leading/trailing .* and ^...$"},
 	"c08": {name: "c08", pFilter: 40, pStats: 30, pSort: 0, pLimit: 0, pAuth: 100, pBackends: 0, pWrapped: 20, maxDepth: 2, maxBackends: 2, maxHosts: 8, perDataset: 12, tables: []string{"hosts", "services", "hostgroups", "servicegroups", "hostsbygroup", "servicesbygroup", "servicesbyhostgroup", "comments", "downtimes", "contacts", "commands"},
 		rule: "generated contact assignments x 4 authorisation settings x all tables x data and Stats requests with AuthUser and extra filters"},
@@ -179,7 +180,7 @@ func qeMain(args []string) int {
 				}
 			}
 			gen := &qeGen{r: rnd.fork(), ds: ds, pFilter: prof.pFilter, pStats: prof.pStats, pSort: prof.pSort, pLimit: prof.pLimit, pAuth: prof.pAuth,
-				pBackends: prof.pBackends, pWrapped: prof.pWrapped, maxDepth: prof.maxDepth, tables: prof.tables, hist: meta.Histogram}
+				pBackends: prof.pBackends, pWrapped: prof.pWrapped, pGrouped: prof.pGrouped, maxDepth: prof.maxDepth, tables: prof.tables, hist: meta.Histogram}
 			svcStrict, grpStrict := false, true
 			if prof.pAuth > 50 {
 				svcStrict, grpStrict = rnd.chance(1, 2), rnd.chance(1, 2)
